@@ -9,8 +9,9 @@
        unlinking of its inputs; the stale handle's reload unlinks those files
        itself ([Counterexamples.ce_paused_compaction], [ce_crashed_compaction]).
        [c09_all_traces_strong] has the one hypothesis that excludes exactly this,
-       the trace precondition [c09_precond]: at the call of an Add none of the
-       tables the handle holds is both dropped from tables.list and still on disk.
+       the trace precondition [c09_precond]: at the call of an Add (Add-like call)
+       none of the tables the handle holds is both dropped from tables.list and
+       still on disk.
        The former hypotheses are gone: reopen_before_add because the oracle's
        memory of a handle now always is the names of the stack the handle holds
        ([J]); [1 <= attempts] because with no attempt an Open fails, so no handle
@@ -35,13 +36,24 @@
    of a load by a handle that holds a stack never fails, and the symbolic
    execution of the stale Add goes through as before.
 
+   The calls the oracle looks at.  Through a stale handle: an Add of a table,
+   of an empty table, of a rejected table ([add_like]: lock failure, the
+   directory compares, the handle is refreshed); a compaction (all, a range,
+   with expiry), a Clean, a NewAddition ([stale_quiet]: success resp. lock
+   failure, and the directory is STRICTLY unchanged in both readings -- these
+   paths do not reload: [exec_compact_stale], [exec_clean_stale],
+   [exec_add_multi_stale]).  Through an up-to-date handle: an Add of a table
+   with the lock free commits.  The precondition [c09_precond] speaks of the
+   Add-like calls only.
+
    Structure: 1. sequential execution [sexec] of a program against [apply_req];
    an undisturbed call in a trace is such an execution ([alone_run]).
    2. symbolic execution of [add] in the stale case (strictly, and up to the
-   collection of unlisted tables [gc_ok]) and in the up-to-date case.
+   collection of unlisted tables [gc_ok]) and in the up-to-date case, and of
+   [compact_range], [clean], [add_multi] in the stale case.
    3. a loop [c09g_loop] generic in the comparison of directories, equal to
    c09_loop / c09_loop_gc; the precondition.  4. the run invariant.  5. the
-   clause of the oracle; the theorems.  6. counterexamples. *)
+   clause of the oracle ([clause_of_add]); the theorems.  6. counterexamples. *)
 From Coq Require Import List NArith Arith Bool Lia.
 From RT Require Import Model.StackTrace Model.Segments Model.StackProto.
 From RT Require Import Proofs.LockProofs Proofs.StackInvProofs Proofs.ResidueProofs.
@@ -252,15 +264,15 @@ Lemma fs_unlock_eq : forall s, f_lock s = None ->
 Proof. intros s H. destruct s; cbn in *; subst; reflexivity. Qed.
 
 (* a stale handle: lock failure, the directory is what it was, the handle holds the current list *)
-Lemma exec_add_stale : forall so h a hh tx auto mm s E m r s',
+Lemma exec_add_stale : forall so h a hh kind auto mm s E m r s',
   (forall n, In n (listed_fs s) -> lookup n (f_tabs s) <> None) ->
   (forall n, In n (mnames mm) -> In n (listed_fs s) \/ lookup n (f_tabs s) = None) ->
   mh hh mm -> tabs_hash hh s ->
   list_nat_eqb (mnames mm) (listed_fs s) = false ->
-  sexec so h (add (S a) hh (KAdd tx) auto mm) s E (m, r) s' ->
+  sexec so h (add (S a) hh kind auto mm) s E (m, r) s' ->
   r = RLockFailure /\ s' = s /\ mnames m = listed_fs s.
 Proof.
-  intros so h a hh tx auto mm s E m r s' Hex Hold Hmh Hth Hst H.
+  intros so h a hh kind auto mm s E m r s' Hex Hold Hmh Hth Hst H.
   assert (Hfail : forall E0 s0, s0 = s ->
             sexec so h (do! rl := reload (S a) hh true mm in Ret (fst rl, RLockFailure)) s0 E0 (m, r) s' ->
             r = RLockFailure /\ s' = s /\ mnames m = listed_fs s).
@@ -347,14 +359,14 @@ Proof.
   - apply filter_In in Hn as [_ Hn2]. apply negb_true_iff in Hn2. apply mem_nat_false in Hn2. exact Hn2.
 Qed.
 
-Lemma exec_add_stale_gc : forall so h a hh tx auto mm s E m r s',
+Lemma exec_add_stale_gc : forall so h a hh kind auto mm s E m r s',
   (forall n, In n (listed_fs s) -> lookup n (f_tabs s) <> None) ->
   mh hh mm -> tabs_hash hh s ->
   list_nat_eqb (mnames mm) (listed_fs s) = false ->
-  sexec so h (add (S a) hh (KAdd tx) auto mm) s E (m, r) s' ->
+  sexec so h (add (S a) hh kind auto mm) s E (m, r) s' ->
   r = RLockFailure /\ gc_ok s s' /\ mnames m = listed_fs s.
 Proof.
-  intros so h a hh tx auto mm s E m r s' Hex Hmh Hth Hst H.
+  intros so h a hh kind auto mm s E m r s' Hex Hmh Hth Hst H.
   assert (Hfail : forall E0 s0, s0 = s ->
             sexec so h (do! rl := reload (S a) hh true mm in Ret (fst rl, RLockFailure)) s0 E0 (m, r) s' ->
             r = RLockFailure /\ gc_ok s s' /\ mnames m = listed_fs s).
@@ -411,6 +423,148 @@ Proof.
   apply (leaves_sexec _ _ _ _ _ _ _ _ _ HL H).
 Qed.
 
+(* ---------------- the calls that do not reload: compaction, Clean, NewAddition ---------------- *)
+
+(* Through a stale handle these take tables.list.lock (or find it taken and give
+   up), read tables.list, see that it is not what the handle holds, remove the
+   lock and return: the directory at the return is the directory at the call. *)
+
+Lemma names_eqb_stale : forall (mm : mem) s,
+  list_nat_eqb (mnames mm) (listed_fs s) = false -> names_eqb (listed_fs s) (mnames mm) = false.
+Proof.
+  intros mm s Hst. unfold names_eqb. destruct (list_nat_eqb (listed_fs s) (mnames mm)) eqn:X; [|reflexivity].
+  apply list_nat_eqb_eq in X. rewrite X, list_nat_eqb_refl in Hst. discriminate Hst.
+Qed.
+
+Lemma exec_compact_stale : forall so h att hh first last expiry mm s E m b s',
+  list_nat_eqb (mnames mm) (listed_fs s) = false ->
+  sexec so h (compact_range att hh first last expiry mm) s E (m, b) s' -> s' = s.
+Proof.
+  intros so h att hh first last expiry mm s E m b s' Hst H. unfold compact_range in H.
+  destruct (Nat.leb last first && negb expiry).
+  - cbn [sexec] in H. destruct H as (_ & _ & ->). reflexivity.
+  - cbn [pbind op sexec] in H. destruct H as (c & s1 & rs & fe & E' & Hap & _ & H).
+    cbn [apply_req] in Hap. destruct (f_lock s) as [o|] eqn:El; inversion Hap; subst s1 rs fe; clear Hap.
+    + cbn [sexec] in H. destruct H as (_ & _ & ->). reflexivity.
+    + cbn [pbind op sexec] in H. destruct H as (c1 & s2 & rs & fe & E2 & Hap & _ & H).
+      cbn [apply_req f_list] in Hap. inversion Hap; subst s2 rs fe. clear Hap.
+      rewrite lnames_list in H.
+      change (match f_list s with Some l => l | None => [] end) with (listed_fs s) in H.
+      rewrite (names_eqb_stale _ _ Hst) in H. cbn [negb pbind op sexec] in H.
+      destruct H as (c2 & s3 & rs & fe & E3 & Hap & _ & H).
+      cbn [apply_req f_lock f_list f_tabs f_tlocks f_tmps f_next_tab f_next_tmp] in Hap.
+      inversion Hap; subst s3 rs fe. clear Hap.
+      cbn [sexec] in H. destruct H as (_ & _ & ->). apply fs_unlock_eq. exact El.
+Qed.
+
+Lemma exec_add_multi_stale : forall so h att hh tx same mm s E m r s',
+  list_nat_eqb (mnames mm) (listed_fs s) = false ->
+  sexec so h (add_multi att hh tx same mm) s E (m, r) s' -> r = RLockFailure /\ s' = s.
+Proof.
+  intros so h att hh tx same mm s E m r s' Hst H. unfold add_multi in H.
+  cbn [pbind op sexec] in H. destruct H as (c & s1 & rs & fe & E' & Hap & _ & H).
+  cbn [apply_req] in Hap. destruct (f_lock s) as [o|] eqn:El; inversion Hap; subst s1 rs fe; clear Hap.
+  - cbn [sexec] in H. destruct H as (_ & Er & ->). inversion Er; subst m r. split; reflexivity.
+  - cbn [pbind op sexec] in H. destruct H as (c1 & s2 & rs & fe & E2 & Hap & _ & H).
+    cbn [apply_req f_list] in Hap. inversion Hap; subst s2 rs fe. clear Hap.
+    rewrite lnames_list in H.
+    change (match f_list s with Some l => l | None => [] end) with (listed_fs s) in H.
+    rewrite (names_eqb_stale _ _ Hst) in H. cbn [negb pbind op sexec] in H.
+    destruct H as (c2 & s3 & rs & fe & E3 & Hap & _ & H).
+    cbn [apply_req f_lock f_list f_tabs f_tlocks f_tmps f_next_tab f_next_tmp] in Hap.
+    inversion Hap; subst s3 rs fe. clear Hap.
+    cbn [sexec] in H. destruct H as (_ & Er & ->). inversion Er; subst m r.
+    split; [reflexivity|]. apply fs_unlock_eq. exact El.
+Qed.
+
+Lemma exec_clean_stale : forall so h att hh mm s E m r s',
+  list_nat_eqb (mnames mm) (listed_fs s) = false ->
+  sexec so h (clean att hh mm) s E (m, r) s' -> r = RLockFailure /\ s' = s.
+Proof.
+  intros so h att hh mm s E m r s' Hst H. unfold clean in H.
+  cbn [pbind op sexec] in H. destruct H as (c & s1 & rs & fe & E' & Hap & _ & H).
+  cbn [apply_req] in Hap. destruct (f_lock s) as [o|] eqn:El; inversion Hap; subst s1 rs fe; clear Hap.
+  - cbn [sexec] in H. destruct H as (_ & Er & ->). inversion Er; subst m r. split; reflexivity.
+  - cbn [pbind op sexec] in H. destruct H as (c1 & s2 & rs & fe & E2 & Hap & _ & H).
+    cbn [apply_req f_list] in Hap. inversion Hap; subst s2 rs fe. clear Hap.
+    rewrite lnames_list in H.
+    change (match f_list s with Some l => l | None => [] end) with (listed_fs s) in H.
+    rewrite (names_eqb_stale _ _ Hst) in H. cbn [negb pbind op sexec] in H.
+    destruct H as (c2 & s3 & rs & fe & E3 & Hap & _ & H).
+    cbn [apply_req f_lock f_list f_tabs f_tlocks f_tmps f_next_tab f_next_tmp] in Hap.
+    inversion Hap; subst s3 rs fe. clear Hap.
+    cbn [sexec] in H. destruct H as (_ & Er & ->). inversion Er; subst m r.
+    split; [reflexivity|]. apply fs_unlock_eq. exact El.
+Qed.
+
+(* a compaction call always reports success *)
+Lemma exec_wrap_compact_stale : forall so h att hh first last expiry mm s E m r s',
+  list_nat_eqb (mnames mm) (listed_fs s) = false ->
+  sexec so h (wrap (compact_range att hh first last expiry mm) (fun x => (Some (fst x), ROk))) s E (m, r) s' ->
+  r = ROk /\ s' = s.
+Proof.
+  intros so h att hh first last expiry mm s E m r s' Hst H. unfold wrap in H.
+  apply sexec_bind in H as ([m1 b] & s1 & E1 & E2 & H1 & H2 & _).
+  cbn [sexec] in H2. destruct H2 as (_ & Er & ->). inversion Er; subst m r.
+  split; [reflexivity|]. exact (exec_compact_stale _ _ _ _ _ _ _ _ _ _ _ _ _ Hst H1).
+Qed.
+
+(* the calls of [stale_quiet] through a stale handle: the result the oracle asks for, and nothing happened *)
+Lemma exec_quiet_stale : forall so h att hh o okr mm s E m r s',
+  stale_quiet o = Some okr ->
+  list_nat_eqb (mnames mm) (listed_fs s) = false ->
+  sexec so h (call_prog att hh o (Some mm)) s E (m, r) s' ->
+  okr r = true /\ s' = s.
+Proof.
+  intros so h att hh o okr mm s E m r s' Hq Hst H.
+  assert (Hret : forall (x : option mem), sexec so h (Ret (x, ROk)) s E (m, r) s' -> r = ROk /\ s' = s).
+  { intros x H0. cbn [sexec] in H0. destruct H0 as (_ & Er & ->). inversion Er; subst m r. split; reflexivity. }
+  assert (Hfail : forall (p : prog (mem * apires)),
+            (forall E0 m0 r0 s0, sexec so h p s E0 (m0, r0) s0 -> r0 = RLockFailure /\ s0 = s) ->
+            sexec so h (wrap p (fun x => (Some (fst x), snd x))) s E (m, r) s' -> r = RLockFailure /\ s' = s).
+  { intros p Hp H0. unfold wrap in H0. apply sexec_bind in H0 as ([m1 r1] & s1 & E1 & E2 & H1 & H2 & _).
+    cbn [sexec fst snd] in H2. destruct H2 as (_ & Er & ->). inversion Er; subst m r.
+    exact (Hp _ _ _ _ H1). }
+  destruct o as [|tx auto|tx same| | | |first last| | | |]; cbn [stale_quiet] in Hq; try discriminate Hq;
+    inversion Hq; subst okr; clear Hq; cbn [call_prog] in H.
+  - (* AAddMulti *)
+    destruct (Hfail _ (fun E0 m0 r0 s0 => exec_add_multi_stale so h att hh tx same mm s E0 m0 r0 s0 Hst) H) as [-> ->].
+    split; reflexivity.
+  - (* ACompactAll *)
+    assert (X : r = ROk /\ s' = s).
+    { destruct mm as [|x0 t0]; [exact (Hret _ H)|]. exact (exec_wrap_compact_stale _ _ _ _ _ _ _ _ _ _ _ _ _ Hst H). }
+    destruct X as [-> ->]. split; reflexivity.
+  - (* ACompact *)
+    assert (X : r = ROk /\ s' = s).
+    { destruct (Nat.ltb last (length mm) && Nat.leb first last); [|exact (Hret _ H)].
+      exact (exec_wrap_compact_stale _ _ _ _ _ _ _ _ _ _ _ _ _ Hst H). }
+    destruct X as [-> ->]. split; reflexivity.
+  - (* AExpire *)
+    assert (X : r = ROk /\ s' = s).
+    { destruct mm as [|x0 t0]; [exact (Hret _ H)|]. exact (exec_wrap_compact_stale _ _ _ _ _ _ _ _ _ _ _ _ _ Hst H). }
+    destruct X as [-> ->]. split; reflexivity.
+  - (* AClean *)
+    destruct (Hfail _ (fun E0 m0 r0 s0 => exec_clean_stale so h att hh mm s E0 m0 r0 s0 Hst) H) as [-> ->].
+    split; reflexivity.
+Qed.
+
+Lemma snap_eqb_refl : forall a, snap_eqb a a = true.
+Proof.
+  intro a. unfold snap_eqb. apply andb_true_iff. split; [apply andb_true_iff; split|].
+  - destruct (sn_list a); [apply list_nat_eqb_refl|reflexivity].
+  - apply Nat.eqb_refl.
+  - apply forallb_forall. intros p Hp. apply existsb_path. exact Hp.
+Qed.
+
+(* a compaction call that returns without any file-system operation reports success *)
+Lemma wrap_compact_ret : forall att hh first last expiry mm (m : option mem) r,
+  wrap (compact_range att hh first last expiry mm) (fun x => (Some (fst x), ROk)) = Ret (m, r) -> r = ROk.
+Proof.
+  intros att hh first last expiry mm m r H. unfold wrap, compact_range in H.
+  destruct (Nat.leb last first && negb expiry); cbn [pbind op] in H; [|discriminate H].
+  inversion H; reflexivity.
+Qed.
+
 (* ------------------------------------------------------------------ *)
 (* 3. the oracle, generic in the comparison of directories             *)
 (* ------------------------------------------------------------------ *)
@@ -424,21 +578,37 @@ Definition heldf (h : nat) (mems : list (nat * list nat)) : option (list nat) :=
 Definition mems_upd (h : nat) (names : list nat) (mems : list (nat * list nat)) : list (nat * list nat) :=
   (h, names) :: drop h mems.
 
-Definition c09_clause (cmp : snapshot -> snapshot -> bool) (h : nat) (cur : snapshot)
-           (held : option (list nat)) (t : list event) : bool :=
+(* [c09_call_ok] with what the oracle holds for the handle as an argument *)
+Definition c09_clause (cmp : snapshot -> snapshot -> bool) (cur : snapshot)
+           (held : option (list nat)) (h : nat) (o : apiop) (t : list event) : bool :=
   match held, alone_until_ret h t [] with
   | Some names, Some (evs, r, rest) =>
       if negb (list_nat_eqb names (listed cur)) then
-        (match r with RLockFailure => true | _ => false end)
-        && cmp (last_snap evs cur) cur
-        && (match rest with
-            | EMem h' names' _ :: _ => Nat.eqb h h' && list_nat_eqb names' (listed cur)
-            | _ => false
-            end)
-      else if existsb (path_eqb PLL) (sn_files cur) then true
-      else (match r with ROk => true | _ => false end)
+        if add_like o then
+          (match r with RLockFailure => true | _ => false end)
+          && cmp (last_snap evs cur) cur
+          && (match rest with
+              | EMem h' names' _ :: _ => Nat.eqb h h' && list_nat_eqb names' (listed cur)
+              | _ => false
+              end)
+        else
+          match stale_quiet o with
+          | Some okr => okr r && snap_eqb (last_snap evs cur) cur
+          | None => true
+          end
+      else
+        match o with
+        | AAdd _ _ =>
+            if existsb (path_eqb PLL) (sn_files cur) then true
+            else (match r with ROk => true | _ => false end)
+        | _ => true
+        end
   | _, _ => true
   end.
+
+Lemma c09_call_ok_clause : forall cmp cur mems h o t,
+  c09_call_ok cmp cur mems h o t = c09_clause cmp cur (heldf h mems) h o t.
+Proof. reflexivity. Qed.
 
 Fixpoint c09g_loop (cmp : snapshot -> snapshot -> bool) (cur : snapshot) (mems : list (nat * list nat))
          (tr : list event) : bool :=
@@ -448,36 +618,35 @@ Fixpoint c09g_loop (cmp : snapshot -> snapshot -> bool) (cur : snapshot) (mems :
   | EMem h names _ :: t => c09g_loop cmp cur (mems_upd h names mems) t
   | ERet h AClose _ :: t => c09g_loop cmp cur (drop h mems) t
   | ERet h AOpen RErr :: t => c09g_loop cmp cur (drop h mems) t
-  | ECall h (AAdd tx _) :: t => c09_clause cmp h cur (heldf h mems) t && c09g_loop cmp cur mems t
+  | ECall h o :: t => c09_clause cmp cur (heldf h mems) h o t && c09g_loop cmp cur mems t
   | _ :: t => c09g_loop cmp cur mems t
   end.
 
 Lemma c09g_strict : forall tr cur mems, c09g_loop snap_eqb cur mems tr = c09_loop cur mems tr.
 Proof.
   induction tr as [|e t IH]; intros cur mems; [reflexivity|].
-  destruct e as [h op p r names|s|h op|h op r|h names closed|h|]; try (cbn; apply IH).
-  - destruct op; try (cbn; apply IH).
-    change (c09_clause snap_eqb h cur (heldf h mems) t && c09g_loop snap_eqb cur mems t
-            = c09_clause snap_eqb h cur (heldf h mems) t && c09_loop cur mems t).
-    rewrite IH. reflexivity.
-  - destruct op; try (cbn; apply IH). destruct r; cbn; apply IH.
+  destruct e as [h op p r names|s|h op|h op r|h names closed|h|]; try (cbn [c09g_loop c09_loop]; apply IH).
+  - cbn [c09g_loop c09_loop]. rewrite IH, c09_call_ok_clause. reflexivity.
+  - destruct op; try (cbn [c09g_loop c09_loop]; apply IH). destruct r; cbn [c09g_loop c09_loop]; apply IH.
 Qed.
 
 Lemma c09g_gc : forall tr cur mems, c09g_loop snap_gc cur mems tr = c09_loop_gc cur mems tr.
 Proof.
   induction tr as [|e t IH]; intros cur mems; [reflexivity|].
-  destruct e as [h op p r names|s|h op|h op r|h names closed|h|]; try (cbn; apply IH).
-  - destruct op; try (cbn; apply IH).
-    change (c09_clause snap_gc h cur (heldf h mems) t && c09g_loop snap_gc cur mems t
-            = c09_clause snap_gc h cur (heldf h mems) t && c09_loop_gc cur mems t).
-    rewrite IH. reflexivity.
-  - destruct op; try (cbn; apply IH). destruct r; cbn; apply IH.
+  destruct e as [h op p r names|s|h op|h op r|h names closed|h|]; try (cbn [c09g_loop c09_loop_gc]; apply IH).
+  - cbn [c09g_loop c09_loop_gc]. rewrite IH, c09_call_ok_clause. reflexivity.
+  - destruct op; try (cbn [c09g_loop c09_loop_gc]; apply IH). destruct r; cbn [c09g_loop c09_loop_gc]; apply IH.
 Qed.
 
-(* hypothesis on the trace (for the strict reading): at the call of an Add, none of the
-   tables the handle holds is both dropped from tables.list and still on disk *)
+(* hypothesis on the trace (for the strict reading): at the call of an Add (of a table, of
+   an empty or of a rejected table: the calls that reload when they fail), none of the
+   tables the handle holds is both dropped from tables.list and still on disk.  Nothing
+   is asked at the call of a compaction, a Clean or a NewAddition: these never reload *)
 Definition held_gone (cur : snapshot) (names : list nat) : bool :=
   forallb (fun n => mem_nat n (listed cur) || negb (existsb (path_eqb (PT n)) (sn_files cur))) names.
+
+Definition pre_call (P : snapshot -> list nat -> bool) (cur : snapshot) (held : option (list nat)) (o : apiop) : bool :=
+  if add_like o then match held with Some names => P cur names | None => true end else true.
 
 Fixpoint c09_pre (P : snapshot -> list nat -> bool) (cur : snapshot) (mems : list (nat * list nat))
          (tr : list event) : bool :=
@@ -487,31 +656,32 @@ Fixpoint c09_pre (P : snapshot -> list nat -> bool) (cur : snapshot) (mems : lis
   | EMem h names _ :: t => c09_pre P cur (mems_upd h names mems) t
   | ERet h AClose _ :: t => c09_pre P cur (drop h mems) t
   | ERet h AOpen RErr :: t => c09_pre P cur (drop h mems) t
-  | ECall h (AAdd _ _) :: t =>
-      (match heldf h mems with Some names => P cur names | None => true end) && c09_pre P cur mems t
+  | ECall h o :: t => pre_call P cur (heldf h mems) o && c09_pre P cur mems t
   | _ :: t => c09_pre P cur mems t
   end.
 Definition c09_precond (tr : list event) : bool := c09_pre held_gone snap0 [] tr.
 
+Lemma pre_call_true : forall cur held o, pre_call (fun _ _ => true) cur held o = true.
+Proof. intros cur held o. unfold pre_call. destruct (add_like o); [destruct held|]; reflexivity. Qed.
+
 Lemma c09_pre_true : forall tr cur mems, c09_pre (fun _ _ => true) cur mems tr = true.
 Proof.
   induction tr as [|e t IH]; intros cur mems; [reflexivity|].
-  destruct e as [h op p r names|s|h op|h op r|h names closed|h|]; try (cbn; apply IH).
-  - destruct op; try (cbn; apply IH). cbn [c09_pre]. rewrite IH. destruct (heldf h mems); reflexivity.
-  - destruct op; try (cbn; apply IH). destruct r; cbn; apply IH.
+  destruct e as [h op p r names|s|h op|h op r|h names closed|h|]; try (cbn [c09_pre]; apply IH).
+  - cbn [c09_pre]. rewrite IH, pre_call_true. reflexivity.
+  - destruct op; try (cbn [c09_pre]; apply IH). destruct r; cbn [c09_pre]; apply IH.
 Qed.
 
 Section Generic.
 Variable cmp : snapshot -> snapshot -> bool.
 Variable P : snapshot -> list nat -> bool.
 
-Lemma c09_call : forall cur mems h tx auto t,
-  c09g_loop cmp cur mems (ECall h (AAdd tx auto) :: t) = c09_clause cmp h cur (heldf h mems) t && c09g_loop cmp cur mems t.
+Lemma c09_call : forall cur mems h o t,
+  c09g_loop cmp cur mems (ECall h o :: t) = c09_clause cmp cur (heldf h mems) h o t && c09g_loop cmp cur mems t.
 Proof. reflexivity. Qed.
 
-Lemma c09_pre_call : forall cur mems h tx auto t,
-  c09_pre P cur mems (ECall h (AAdd tx auto) :: t) =
-  (match heldf h mems with Some names => P cur names | None => true end) && c09_pre P cur mems t.
+Lemma c09_pre_call : forall cur mems h o t,
+  c09_pre P cur mems (ECall h o :: t) = pre_call P cur (heldf h mems) o && c09_pre P cur mems t.
 Proof. reflexivity. Qed.
 
 (* what the oracle remembers after the events of a return *)
@@ -584,6 +754,39 @@ Qed.
 
 Definition onames (m : option mem) : option (list nat) :=
   match m with Some mm => Some (mnames mm) | None => None end.
+
+(* a call that returns without any file-system operation satisfies the oracle's clause
+   (a compaction of nothing reports success; the directory is what it was), and nothing
+   is asked of the trace at such a call *)
+Lemma clause_immediate : forall cmp cur att hh o m0 m r h rest,
+  call_prog att hh o m0 = Ret (m, r) ->
+  c09_clause cmp cur (onames m0) h o (finish_events h o m r ++ rest) = true.
+Proof.
+  intros cmp cur att hh o m0 m r h rest H. destruct m0 as [mm|]; [|reflexivity].
+  cbn [onames]. unfold c09_clause, finish_events. cbn [app alone_until_ret]. rewrite Nat.eqb_refl. cbn [rev].
+  assert (Hq : forall okr, stale_quiet o = Some okr -> okr r = true).
+  { intros okr Hq.
+    destruct o as [|tx auto|tx same| | | |first last| | | |]; cbn [stale_quiet] in Hq; try discriminate Hq;
+      inversion Hq; subst okr; clear Hq; cbn [call_prog] in H; try discriminate H.
+    - destruct mm as [|x0 t0]; [inversion H; reflexivity|]. rewrite (wrap_compact_ret _ _ _ _ _ _ _ _ H). reflexivity.
+    - destruct (Nat.ltb last (length mm) && Nat.leb first last); [|inversion H; reflexivity].
+      rewrite (wrap_compact_ret _ _ _ _ _ _ _ _ H). reflexivity.
+    - destruct mm as [|x0 t0]; [inversion H; reflexivity|]. rewrite (wrap_compact_ret _ _ _ _ _ _ _ _ H). reflexivity. }
+  destruct (negb (list_nat_eqb (mnames mm) (listed cur))).
+  - destruct (add_like o) eqn:Eal.
+    + destruct o; try discriminate Eal; cbn [call_prog] in H; discriminate H.
+    + destruct (stale_quiet o) as [okr|]; [|reflexivity].
+      rewrite (Hq okr eq_refl). cbn [last_snap fold_left andb]. apply snap_eqb_refl.
+  - destruct o; try reflexivity. cbn [call_prog] in H. discriminate H.
+Qed.
+
+Lemma pre_immediate : forall P cur att hh o m0 m r,
+  call_prog att hh o m0 = Ret (m, r) -> pre_call P cur (onames m0) o = true.
+Proof.
+  intros P cur att hh o m0 m r H. unfold pre_call. destruct (add_like o) eqn:Eal; [|reflexivity].
+  destruct m0 as [mm|]; [|reflexivity].
+  destruct o; try discriminate Eal; cbn [call_prog] in H; discriminate H.
+Qed.
 
 Lemma heldf_fin_other : forall i h o m r mems, i <> h -> heldf i (mems_fin h o m r mems) = heldf i mems.
 Proof.
@@ -1042,11 +1245,10 @@ Lemma step_J : forall so att w h c w' e1 mems,
   exists mems', J w' mems' /\
     (((forall rest, c09g_loop cmp (snapshot_of (w_fs w)) mems (e1 ++ rest) = c09g_loop cmp (snapshot_of (w_fs w')) mems' rest) /\
       (forall rest, c09_pre P (snapshot_of (w_fs w)) mems (e1 ++ rest) = c09_pre P (snapshot_of (w_fs w')) mems' rest))
-     \/ (exists tx auto mm hd', e1 = [ECall h (AAdd tx auto)] /\ mems' = mems /\ w_fs w' = w_fs w /\
+     \/ (exists o hd', e1 = [ECall h o] /\ mems' = mems /\ w_fs w' = w_fs w /\
            nth_error (w_handles w') h = Some hd' /\
-           h_pc hd' = HRun (AAdd tx auto) (call_prog att (h_hash hd') (AAdd tx auto) (Some mm)) /\
-           h_mem hd' = Some mm /\
-           heldf h mems = Some (mnames mm))).
+           h_pc hd' = HRun o (call_prog att (h_hash hd') o (h_mem hd')) /\
+           heldf h mems = onames (h_mem hd'))).
 Proof.
   intros so att w h c w' e1 mems HJ H. unfold step in H.
   match goal with |- ?G => assert (Hnop : (w', e1) = (w, []) -> G) end.
@@ -1067,24 +1269,20 @@ Proof.
       exists (mems_fin h o m r mems). split.
       * apply J_set; [intros; apply Hoth; assumption|]. apply Hfin. exact HL.
       * left. cbn [w_fs].
-        assert (Hc : forall t, c09g_loop cmp (snapshot_of (w_fs w)) mems (ECall h o :: t) = c09g_loop cmp (snapshot_of (w_fs w)) mems t /\
-                               c09_pre P (snapshot_of (w_fs w)) mems (ECall h o :: t) = c09_pre P (snapshot_of (w_fs w)) mems t).
-        { intro t. destruct o; try (split; reflexivity).
-          (* an Add that returns at once: the handle has no stack and the oracle holds nothing for it *)
-          rewrite c09_call, c09_pre_call.
-          destruct (h_mem hd) as [mm|] eqn:Em; [cbn [call_prog] in Ecp; discriminate Ecp|].
-          cbn [onames] in Hheld. rewrite Hheld. split; reflexivity. }
-        split; intro rest0; cbn [app]; [rewrite (proj1 (Hc _))|rewrite (proj2 (Hc _))]; apply (c09_finish cmp P).
+        split; intro rest0; cbn [app].
+        -- rewrite c09_call, Hheld, (clause_immediate cmp _ _ _ _ _ _ _ h rest0 Ecp). cbn [andb].
+           apply (c09_finish cmp P).
+        -- rewrite c09_pre_call, Hheld, (pre_immediate P _ _ _ _ _ _ _ Ecp). cbn [andb].
+           apply (c09_finish cmp P).
     + inversion H; subst w' e1. clear H.
       exists mems. split.
       * apply J_set; [intros i hd0 Hne E; apply HJ; exact E|].
         split; [exact Hheld|]. cbn [h_pc h_mem]. exact HL.
-      * destruct o; try (left; split; intro rest0; reflexivity).
-        right. destruct (h_mem hd) as [mm|] eqn:Em; [|cbn [call_prog] in Ecp; discriminate Ecp].
-        exists tx, auto, mm, {| h_mem := Some mm; h_pc := HRun (AAdd tx auto) (Op q k); h_script := rest; h_hash := h_hash hd |}.
+      * right.
+        exists o, {| h_mem := h_mem hd; h_pc := HRun o (Op q k); h_script := rest; h_hash := h_hash hd |}.
         split; [reflexivity|]. split; [reflexivity|]. split; [reflexivity|].
         split; [cbn [w_handles]; eapply nth_set_same; exact En|].
-        split; [cbn [h_pc h_hash]; rewrite Ecp; reflexivity|]. split; [reflexivity|exact Hheld].
+        split; [cbn [h_pc h_hash h_mem]; rewrite Ecp; reflexivity|exact Hheld].
   - (* inside a call *)
     destruct p as [[m r]|q k].
     + inversion H; subst w' e1. clear H. cbn [leaves] in Hh.
@@ -1107,14 +1305,13 @@ Proof.
         -- left. cbn [w_fs]. split; intro rest0; cbn [app]; apply (c09_req cmp P).
 Qed.
 
-(* what section 5 proves of an undisturbed Add that starts when [P] holds *)
-Definition clause_spec : Prop := forall so a sched γ st dh w w' evs h hd tx auto mm,
+(* what section 5 proves of an undisturbed call that starts when [P] holds (if it is an Add) *)
+Definition clause_spec : Prop := forall so a sched γ st dh w w' evs h hd o,
   WInv γ w st -> NatInv dh w -> run so (S a) w sched = (w', evs) ->
   nth_error (w_handles w) h = Some hd ->
-  h_pc hd = HRun (AAdd tx auto) (call_prog (S a) (h_hash hd) (AAdd tx auto) (Some mm)) ->
-  h_mem hd = Some mm ->
-  P (snapshot_of (w_fs w)) (mnames mm) = true ->
-  c09_clause cmp h (snapshot_of (w_fs w)) (Some (mnames mm)) evs = true.
+  h_pc hd = HRun o (call_prog (S a) (h_hash hd) o (h_mem hd)) ->
+  pre_call P (snapshot_of (w_fs w)) (onames (h_mem hd)) o = true ->
+  c09_clause cmp (snapshot_of (w_fs w)) (onames (h_mem hd)) h o evs = true.
 
 Lemma run_c09 : clause_spec -> forall so a sched γ st dh w mems w' evs,
   WInv γ w st -> NatInv dh w -> J w mems -> run so (S a) w sched = (w', evs) ->
@@ -1129,7 +1326,7 @@ Proof.
     pose proof (step_N _ _ _ _ _ _ _ _ _ _ HW HN E1) as HN'.
     destruct (step_J _ _ _ _ _ _ _ _ HJ E1) as (mems' & HJ' & [[C1 C2]|X]).
     + rewrite C1. rewrite C2 in Hpre. eapply IH; eauto.
-    + destruct X as (tx & auto & mm & hd' & -> & -> & Efs & En & Epc & Emem & Hheld).
+    + destruct X as (o & hd' & -> & -> & Efs & En & Epc & Hheld).
       cbn [app] in *. rewrite c09_call. rewrite c09_pre_call in Hpre.
       apply andb_true_iff in Hpre as [Hg Hpre]. rewrite Hheld in *. rewrite <- Efs in *.
       apply andb_true_iff. split.
@@ -1156,16 +1353,8 @@ Qed.
 End Run.
 
 (* ------------------------------------------------------------------ *)
-(* 5. the clause of the oracle for an undisturbed Add; the theorems    *)
+(* 5. the clause of the oracle for an undisturbed call; the theorems   *)
 (* ------------------------------------------------------------------ *)
-
-Lemma snap_eqb_refl : forall a, snap_eqb a a = true.
-Proof.
-  intro a. unfold snap_eqb. apply andb_true_iff. split; [apply andb_true_iff; split|].
-  - destruct (sn_list a); [apply list_nat_eqb_refl|reflexivity].
-  - apply Nat.eqb_refl.
-  - apply forallb_forall. intros p Hp. apply existsb_path. exact Hp.
-Qed.
 
 Lemma pt_in_files : forall s n f, lookup n (f_tabs s) = Some f ->
   existsb (path_eqb (PT n)) (sn_files (snapshot_of s)) = true.
@@ -1213,59 +1402,93 @@ Proof.
     + apply orb_true_iff. left. apply existsb_path. exact Hp.
 Qed.
 
+(* what is needed of a failed Add (of a table, an empty table, a rejected table)
+   through a stale handle, in terms of the comparison [cmp] and the precondition [P] *)
+Definition stale_add_spec (cmp : snapshot -> snapshot -> bool) (P : snapshot -> list nat -> bool) : Prop :=
+  forall so h a hh kind auto mm s E m r s',
+  (forall n, In n (listed_fs s) -> lookup n (f_tabs s) <> None) ->
+  mh hh mm -> tabs_hash hh s ->
+  list_nat_eqb (mnames mm) (listed_fs s) = false ->
+  P (snapshot_of s) (mnames mm) = true ->
+  sexec so h (add (S a) hh kind auto mm) s E (m, r) s' ->
+  r = RLockFailure /\ cmp (snapshot_of s') (snapshot_of s) = true /\ mnames m = listed_fs s.
+
 (* the strict reading, when the handle's unlisted tables are already unlinked *)
-Lemma clause_holds : clause_spec snap_eqb held_gone.
+Lemma stale_add_strict : stale_add_spec snap_eqb held_gone.
 Proof.
-  intros so a sched γ st dh w w' evs h hd tx auto mm (HG & _ & Hinv) HN Hrun En Epc Emem Hgone.
-  destruct (Hinv h hd En) as (_ & Hmh & _). rewrite Emem in Hmh. specialize (Hmh mm eq_refl).
-  pose proof (NatInv_held _ _ _ _ _ HN En Emem) as Ehh. destruct HN as [Hth _]. rewrite Ehh in *.
-  unfold c09_clause. destruct (alone_until_ret h evs []) as [[[E r] rest]|] eqn:Hal; [|reflexivity].
-  destruct (alone_run _ _ _ _ _ _ _ _ _ _ _ _ _ _ Hrun En Epc Hal) as (E0 & m & s' & rest' & Hs & -> & ->).
-  cbn [rev app]. pose proof (last_snap_sexec _ _ _ _ _ _ _ _ Hs) as Hlast.
-  cbn [call_prog] in Hs. unfold wrap in Hs.
-  apply sexec_bind in Hs as ([m1 r1] & s1 & E1 & E2 & H1 & H2 & _).
-  cbn [sexec fst snd] in H2. destruct H2 as (_ & Em & ->). inversion Em; subst m r. clear Em.
-  set (s := w_fs w) in *. change (listed (snapshot_of s)) with (listed_fs s).
-  destruct (list_nat_eqb (mnames mm) (listed_fs s)) eqn:Eq; cbn [negb].
-  - (* up to date *)
-    destruct (existsb (path_eqb PLL) (sn_files (snapshot_of s))) eqn:Ep; [reflexivity|].
-    assert (El : f_lock s = None).
-    { destruct (f_lock s) as [c|] eqn:El; [|reflexivity]. rewrite (pll_in_files s c El) in Ep. discriminate. }
-    apply list_nat_eqb_eq in Eq.
-    rewrite (exec_add_fresh _ _ _ _ _ _ _ _ _ _ _ _ El Eq H1). reflexivity.
-  - (* stale *)
-    assert (Hold : forall n, In n (mnames mm) -> In n (listed_fs s) \/ lookup n (f_tabs s) = None).
-    { intros n Hn. unfold held_gone in Hgone. rewrite forallb_forall in Hgone. specialize (Hgone n Hn).
-      change (listed (snapshot_of s)) with (listed_fs s) in Hgone.
-      apply orb_true_iff in Hgone as [X|X]; [left; apply mem_nat_In; exact X|].
-      right. destruct (lookup n (f_tabs s)) as [f|] eqn:El; [|reflexivity].
-      rewrite (pt_in_files s n f El) in X. discriminate. }
-    destruct (exec_add_stale _ _ _ _ _ _ _ _ _ _ _ _ (g_exist HG) Hold Hmh Hth Eq H1) as (-> & -> & Hm).
-    rewrite Hlast, snap_eqb_refl. cbn [andb mem_events app]. rewrite Nat.eqb_refl, Hm. apply list_nat_eqb_refl.
+  intros so h a hh kind auto mm s E m r s' Hex Hmh Hth Hst Hgone H.
+  assert (Hold : forall n, In n (mnames mm) -> In n (listed_fs s) \/ lookup n (f_tabs s) = None).
+  { intros n Hn. unfold held_gone in Hgone. rewrite forallb_forall in Hgone. specialize (Hgone n Hn).
+    change (listed (snapshot_of s)) with (listed_fs s) in Hgone.
+    apply orb_true_iff in Hgone as [X|X]; [left; apply mem_nat_In; exact X|].
+    right. destruct (lookup n (f_tabs s)) as [f|] eqn:El; [|reflexivity].
+    rewrite (pt_in_files s n f El) in X. discriminate X. }
+  destruct (exec_add_stale _ _ _ _ _ _ _ _ _ _ _ _ Hex Hold Hmh Hth Hst H) as (-> & -> & Hm).
+  split; [reflexivity|]. split; [apply snap_eqb_refl|exact Hm].
 Qed.
 
 (* the gc-tolerant reading: no precondition *)
-Lemma clause_holds_gc : clause_spec snap_gc (fun _ _ => true).
+Lemma stale_add_gc : stale_add_spec snap_gc (fun _ _ => true).
 Proof.
-  intros so a sched γ st dh w w' evs h hd tx auto mm (HG & _ & Hinv) HN Hrun En Epc Emem _.
+  intros so h a hh kind auto mm s E m r s' Hex Hmh Hth Hst _ H.
+  destruct (exec_add_stale_gc _ _ _ _ _ _ _ _ _ _ _ _ Hex Hmh Hth Hst H) as (-> & Hgc & Hm).
+  split; [reflexivity|]. split; [apply snap_gc_of; exact Hgc|exact Hm].
+Qed.
+
+(* the program of an Add-like call *)
+Lemma call_prog_add_like : forall att hh o mm, add_like o = true ->
+  exists kind auto, call_prog att hh o (Some mm) = wrap (add att hh kind auto mm) (fun x => (Some (fst x), snd x)).
+Proof.
+  intros att hh o mm H. destruct o as [|tx auto|tx same| | | |first last| | | |]; try discriminate H; cbn [call_prog].
+  - exists (KAdd tx), auto. reflexivity.
+  - exists KEmpty, false. reflexivity.
+  - exists KBad, false. reflexivity.
+Qed.
+
+(* the clause of the oracle, for every call *)
+Lemma clause_of_add : forall cmp P, stale_add_spec cmp P -> clause_spec cmp P.
+Proof.
+  intros cmp P Hadd so a sched γ st dh w w' evs h hd o (HG & _ & Hinv) HN Hrun En Epc Hpre.
+  destruct (h_mem hd) as [mm|] eqn:Emem; [|reflexivity].
+  cbn [onames] in Hpre |- *.
   destruct (Hinv h hd En) as (_ & Hmh & _). rewrite Emem in Hmh. specialize (Hmh mm eq_refl).
   pose proof (NatInv_held _ _ _ _ _ HN En Emem) as Ehh. destruct HN as [Hth _]. rewrite Ehh in *.
   unfold c09_clause. destruct (alone_until_ret h evs []) as [[[E r] rest]|] eqn:Hal; [|reflexivity].
   destruct (alone_run _ _ _ _ _ _ _ _ _ _ _ _ _ _ Hrun En Epc Hal) as (E0 & m & s' & rest' & Hs & -> & ->).
   cbn [rev app]. pose proof (last_snap_sexec _ _ _ _ _ _ _ _ Hs) as Hlast.
-  cbn [call_prog] in Hs. unfold wrap in Hs.
-  apply sexec_bind in Hs as ([m1 r1] & s1 & E1 & E2 & H1 & H2 & _).
-  cbn [sexec fst snd] in H2. destruct H2 as (_ & Em & ->). inversion Em; subst m r. clear Em.
   set (s := w_fs w) in *. change (listed (snapshot_of s)) with (listed_fs s).
   destruct (list_nat_eqb (mnames mm) (listed_fs s)) eqn:Eq; cbn [negb].
-  - destruct (existsb (path_eqb PLL) (sn_files (snapshot_of s))) eqn:Ep; [reflexivity|].
+  - (* up to date: only an Add of a table has a clause *)
+    destruct o as [|tx auto|tx same| | | |first last| | | |]; try reflexivity.
+    destruct (existsb (path_eqb PLL) (sn_files (snapshot_of s))) eqn:Ep; [reflexivity|].
     assert (El : f_lock s = None).
-    { destruct (f_lock s) as [c|] eqn:El; [|reflexivity]. rewrite (pll_in_files s c El) in Ep. discriminate. }
+    { destruct (f_lock s) as [c|] eqn:El; [|reflexivity]. rewrite (pll_in_files s c El) in Ep. discriminate Ep. }
     apply list_nat_eqb_eq in Eq.
+    cbn [call_prog] in Hs. unfold wrap in Hs.
+    apply sexec_bind in Hs as ([m1 r1] & s1 & E1 & E2 & H1 & H2 & _).
+    cbn [sexec fst snd] in H2. destruct H2 as (_ & Em & ->). inversion Em; subst m r. clear Em.
     rewrite (exec_add_fresh _ _ _ _ _ _ _ _ _ _ _ _ El Eq H1). reflexivity.
-  - destruct (exec_add_stale_gc _ _ _ _ _ _ _ _ _ _ _ _ (g_exist HG) Hmh Hth Eq H1) as (-> & Hgc & Hm).
-    rewrite Hlast, (snap_gc_of _ _ Hgc). cbn [andb mem_events app]. rewrite Nat.eqb_refl, Hm. apply list_nat_eqb_refl.
+  - (* stale *)
+    destruct (add_like o) eqn:Eal.
+    + (* an Add: lock failure, the directory compares, the handle is refreshed *)
+      unfold pre_call in Hpre. rewrite Eal in Hpre.
+      destruct (call_prog_add_like (S a) dh o mm Eal) as (kind & auto & Ecp).
+      rewrite Ecp in Hs. unfold wrap in Hs.
+      apply sexec_bind in Hs as ([m1 r1] & s1 & E1 & E2 & H1 & H2 & _).
+      cbn [sexec fst snd] in H2. destruct H2 as (_ & Em & ->). inversion Em; subst m r. clear Em.
+      destruct (Hadd _ _ _ _ _ _ _ _ _ _ _ _ (g_exist HG) Hmh Hth Eq Hpre H1) as (-> & Hcmp & Hm).
+      rewrite Hlast, Hcmp. cbn [andb mem_events app]. rewrite Nat.eqb_refl, Hm. apply list_nat_eqb_refl.
+    + (* a compaction, a Clean, a NewAddition: nothing happens *)
+      destruct (stale_quiet o) as [okr|] eqn:Eq2; [|reflexivity].
+      destruct (exec_quiet_stale _ _ _ _ _ _ _ _ _ _ _ _ Eq2 Eq Hs) as [Hr ->].
+      rewrite Hr, Hlast. apply snap_eqb_refl.
 Qed.
+
+Lemma clause_holds : clause_spec snap_eqb held_gone.
+Proof. exact (clause_of_add _ _ stale_add_strict). Qed.
+
+Lemma clause_holds_gc : clause_spec snap_gc (fun _ _ => true).
+Proof. exact (clause_of_add _ _ stale_add_gc). Qed.
 
 (* without any load attempt no handle ever gets a stack: the oracle has nothing to check *)
 Definition no_stack (w : world) : Prop :=
@@ -1462,5 +1685,38 @@ Module Counterexamples.
     c09_precond tr_e = true /\ c09_ok tr_e = true /\ c09_ok_gc tr_e = true /\
     existsb (fun e => match e with ERet 1 (AAdd 5 true) RLockFailure => true | _ => false end) tr_e = true /\
     existsb (fun e => match e with ERet 1 (AAdd 6 true) ROk => true | _ => false end) tr_e = true.
+  Proof. vm_compute. auto. Qed.
+  (* the calls that do not reload.  Handle 1 commits a table; handle 0, now stale, compacts
+     (three ways), cleans and starts a two-table transaction: success / lock failure, the
+     directory untouched, the handle still stale; its empty Add then fails and refreshes it,
+     and the rejected Add after that goes through an up-to-date handle *)
+  Definition scripts_f := [(false, [AOpen; ACompactAll; AExpire; ACompact 0 1; AClean; AAddMulti 11 false; AAddEmpty; AAddBad]);
+                           (false, [AOpen; AAdd 5 false])].
+  Definition sched_f := steps 0 4 ++ steps 1 30 ++ steps 0 80.
+  Definition tr_f := trace_of so 2 [(0, f0); (1, f1)] scripts_f sched_f.
+  Example stale_quiet_example :
+    c09_precond tr_f = true /\ c09_ok tr_f = true /\ c09_ok_gc tr_f = true /\
+    forallb (fun x => existsb (fun e => match e, x with
+                                        | ERet 0 ACompactAll ROk, 0 | ERet 0 AExpire ROk, 1 | ERet 0 (ACompact 0 1) ROk, 2
+                                        | ERet 0 AClean RLockFailure, 3 | ERet 0 (AAddMulti 11 false) RLockFailure, 4
+                                        | ERet 0 AAddEmpty RLockFailure, 5 | ERet 0 AAddBad RRejected, 6 => true
+                                        | _, _ => false end) tr_f) [0; 1; 2; 3; 4; 5; 6] = true.
+  Proof. vm_compute. auto. Qed.
+
+  (* (c) with an empty Add instead of an Add: the same (this is why the precondition covers
+     every Add-like call) *)
+  Definition scripts_g := [(false, [AOpen; AAddEmpty]); (false, [AOpen; ACompactAll])].
+  Definition tr_g := trace_of so 2 [(0, f0); (1, f1)] scripts_g sched_c.
+  Example ce_paused_compaction_empty_add :
+    c09_ok tr_g = false /\ c09_precond tr_g = false /\ c09_ok_gc tr_g = true.
+  Proof. vm_compute. auto. Qed.
+
+  (* (c) with a compaction and a Clean through the stale handle: they do not reload, nothing is
+     unlinked, the strict reading holds and the precondition asks nothing *)
+  Definition scripts_h := [(false, [AOpen; ACompactAll; AClean]); (false, [AOpen; ACompactAll])].
+  Definition tr_h := trace_of so 2 [(0, f0); (1, f1)] scripts_h sched_c.
+  Example paused_compaction_quiet :
+    c09_ok tr_h = true /\ c09_precond tr_h = true /\ c09_ok_gc tr_h = true /\
+    existsb (fun e => match e with ERet 0 AClean RLockFailure => true | _ => false end) tr_h = true.
   Proof. vm_compute. auto. Qed.
 End Counterexamples.
